@@ -35,7 +35,7 @@ class C11(BaseCheck):
   REQUIRED_ANCHORS = ANCHORS
   REQUIRED_CLASSES = ('thriftmux', 'kafka', 'adv:duplicate-reply', 'adv:unknown-tag', 'adv:reserved-tag-1',
                       'adv:tag-0', 'adv:huge-tag', 'adv:bitflip-tag', 'error-frame-replies', 'kafka:timeouts', 'tagpool:exhausted', 'tagpool:get-after-refusal', 'direct:bare-messages', 'direct:expired-while-opening', 'direct:retry-from-reply-handler', 'direct:answered-after-expiry-in-queue', 'timeout-before-send', 'timeout-after-send', 're-open',
-                      'tag-reuse', 'yielding-log-handler', 'direct:reply-handler-yields', 'direct:answered-twice-handler-yields', 'replies-in-several-segments', 'large-tags', 'callers-abandon-behind-deep-backlog', 'keepalive-ping-between-requests')
+                      'tag-reuse', 'yielding-log-handler', 'direct:reply-handler-yields', 'direct:answered-twice-handler-yields', 'replies-in-several-segments', 'large-tags', 'callers-abandon-behind-deep-backlog', 'keepalive-ping-between-requests', 'short-sends')
   ASSUMPTIONS = ('a tag counts as answered when the client has read the last byte of any R-frame carrying it '
                  '(known from the simulated socket\'s read offsets)',)
   QUICK_CASES = 720
@@ -645,6 +645,13 @@ class C11(BaseCheck):
     if stall:
       for s in w.servers:
         s.sim.send_delay = lambda conn: rng.choice([0.0, 0.0, 0.05, 0.2])
+    if idx % 4 == 2:
+      # sockets whose send() takes only part of a buffer (little free space in the kernel buffer, frames
+      # larger than it): every request must still arrive whole, under the tag leased for it
+      classes.add('short-sends')
+      lim_ = rng.choice([1, 7, 40, 150])
+      for s in w.servers:
+        s.sim.send_limit = lim_
     adv_classes = set()
     issued = 0
     reopens = 0
